@@ -40,11 +40,14 @@ Definition parse_decimal_text (inp : list N) : res dec :=
         end
       | None => Ok (0%Z, inp)
       end;
-    let '(e1, inp) :=
+    do '(e1, inp) <-
       match split_at_first (fun c => c =? 46) inp [] with
-      | Some (ip, fp) => (wrap32 (e0 - Z.of_nat (length fp)), ip ++ fp)
-      | None => (e0, inp)
-      end in
+      | Some (ip, fp) =>
+        (* the adjustment is computed in int64; a result below MinInt32 is a range error *)
+        let e := (e0 - Z.of_nat (length fp))%Z in
+        if (e <? -2147483648)%Z then Err else Ok (e, ip ++ fp)
+      | None => Ok (e0, inp)
+      end;
     match go_signed_val 10 inp with
     | None => Err
     | Some n =>
